@@ -263,7 +263,7 @@ func exxProvenance(c *core.Ctx, prop string, s *Stage) {
 				ok := ctxA.Op == "param" && isContextType(ctxA.Typ)
 				why := "first argument is not the stage's context"
 				if ok {
-					if m, _, args, isC := callParts(exx); isC && m == "errch" {
+					if _, _, args, isC := callParts(exx); isC && isErrchCall(exx) {
 						ok = ir.Same(args[0], recv)
 						why = "the error channel comes from errch of a different function value than the one whose catch is called"
 						if inst := instancesOf(pr); ok && (inst == nil || !(inst.IsConst() && inst.Aux == "1")) {
